@@ -234,6 +234,10 @@ static std::vector<QOp> qalphabet(std::size_t n)
                            w.slot[i]->reset();
                            w.kill(w.mslot[i]);
                        } });
+        ops.push_back({ "s" + si + "=nullptr", [i](QWorld& w) {
+                           *w.slot[i] = nullptr;
+                           w.kill(w.mslot[i]);
+                       } });
         ops.push_back({ "destroy s" + si, [i](QWorld& w) {
                            w.slot[i].reset();
                            w.kill(w.mslot[i]);
